@@ -72,6 +72,19 @@ impl Core {
                     },
                 }
             }
+            "cycle" => match &self.sess {
+                None => "no-session".into(),
+                Some(s) => cycle_end(s, 0).map(|x| x.to_string()).unwrap_or("-".into()),
+            },
+            "stream" => match &self.sess {
+                None => "no-session".into(),
+                Some(s) => s
+                    .stream
+                    .iter()
+                    .map(|d| format!("{}:{}:{}:{}:{}", d.toi, d.fdt_id, d.sbn, d.esi, d.close as u8))
+                    .collect::<Vec<_>>()
+                    .join(" "),
+            },
             "full" | "mask" | "dup" | "join" => {
                 let s = match &self.sess {
                     Some(s) => s,
